@@ -253,7 +253,7 @@ pub struct Plan {
     /// single faults: (call, injectable index i) -> errno
     pub faults: HashMap<(usize, usize), i32>,
     /// sequence faults: every occurrence of syscall `nr` (first `count` of them) gets errno
-    pub seq: Vec<(String, i32, usize, usize)>,
+    pub seq: Vec<(String, i32, usize, usize, String)>,
     /// fd exhaustion: every fd-creating syscall from injectable index `from` on fails with errno
     pub exhaust: Option<(usize, usize, i32)>,
     /// bits cleared from the request mask of every statx(2) of the tracee (emulates kernels that do not know them,
@@ -462,10 +462,10 @@ impl Worker {
                         inject = Some(e);
                     }
                 }
-                for (k, (nm, e, count, cj)) in rec.plan.seq.iter().enumerate() {
+                for (k, (nm, e, count, cj, cls)) in rec.plan.seq.iter().enumerate() {
                     if *cj == j && nm == ent.name && rec.seq_used[k] < *count {
-                        // only syscalls against the tree (dfd class tree) take part in sequences
-                        if ent.ev.get("dfd_class").and_then(|v| v.as_str()) == Some("tree") {
+                        // only syscalls against one descriptor class take part in a sequence (default: the tree)
+                        if ent.ev.get("dfd_class").and_then(|v| v.as_str()) == Some(cls.as_str()) {
                             rec.seq_used[k] += 1;
                             inject = Some(*e);
                         }
@@ -911,7 +911,8 @@ impl Shard {
                     plan.faults.insert((j, i as usize), e);
                 } else if let Some(nm) = f.get("nr").and_then(|v| v.as_str()) {
                     let count = f.get("count").and_then(|v| v.as_u64()).unwrap_or(1) as usize;
-                    plan.seq.push((nm.to_string(), e, count, j));
+                    let cls = f.get("cls").and_then(|v| v.as_str()).unwrap_or("tree").to_string();
+                    plan.seq.push((nm.to_string(), e, count, j, cls));
                 } else if let Some(from) = f.get("from").and_then(|v| v.as_u64()) {
                     plan.exhaust = Some((j, from as usize, e));
                 }
